@@ -79,7 +79,7 @@ fn class_mask_cfg(mask: u32, base: &Cfg) -> Cfg {
     c
 }
 
-const POOLS3: &[&str] = &["digits", "space", "cased", "marks", "backslash", "meta", "boundary", "clusters"];
+const POOLS3: &[&str] = &["digits", "space", "cased", "marks", "backslash", "meta", "boundary", "clusters", "lookalike"];
 
 fn run(ctx: &mut Ctx) {
     let root = crate::root();
